@@ -72,6 +72,10 @@ func main() {
 		cmdPar(os.Args[2:])
 	case "cancel":
 		cmdCancel(os.Args[2:])
+	case "memio":
+		cmdMemIO(os.Args[2:])
+	case "memioreplay":
+		cmdMemIOReplay(os.Args[2:])
 	case "play":
 		cmdPlay(os.Args[2:])
 	case "sweep16":
